@@ -24,7 +24,8 @@ def Inv (s : St) : Prop := (s.closed = false → Conserved s) ∧ s.wire <+: s.a
 last write attempt -/
 def Armed (s : St) : Prop := s.closed = false → s.wq ≠ [] → s.interestOut = true ∧ s.rearmed = true
 
-def Good (s : St) : Prop := Inv s ∧ Armed s
+/-- T1's and T3's invariants together; the re-arm half needs the unconditional `epoll_ctl(MOD)` of `updateInterest` -/
+def Good (cfg : Cfg) (s : St) : Prop := Inv s ∧ (cfg.modSkipsUnchanged = false → Armed s)
 
 theorem inv_of_conserved {s : St} (h : Conserved s) : Inv s :=
   ⟨fun _ => h, ⟨s.wq.flatten, h⟩⟩
@@ -34,30 +35,38 @@ theorem inv_of_conserved {s : St} (h : Conserved s) : Inv s :=
 section basic
 variable (cfg : Cfg) (s : St)
 
-@[simp] theorem ui_wq : (updateInterest cfg s).1.wq = s.wq := rfl
-@[simp] theorem ui_wireRev : (updateInterest cfg s).1.wireRev = s.wireRev := rfl
-@[simp] theorem ui_acceptedRev : (updateInterest cfg s).1.acceptedRev = s.acceptedRev := rfl
-@[simp] theorem ui_closed : (updateInterest cfg s).1.closed = s.closed := rfl
-@[simp] theorem ui_tls : (updateInterest cfg s).1.tls = s.tls := rfl
-@[simp] theorem ui_deliveredRev : (updateInterest cfg s).1.deliveredRev = s.deliveredRev := rfl
-@[simp] theorem ui_receivedRev : (updateInterest cfg s).1.receivedRev = s.receivedRev := rfl
-@[simp] theorem ui_wire : (updateInterest cfg s).1.wire = s.wire := rfl
-@[simp] theorem ui_accepted : (updateInterest cfg s).1.accepted = s.accepted := rfl
+@[simp] theorem ui_wq : (updateInterest cfg s).1.wq = s.wq := by
+  unfold updateInterest; split <;> rfl
+@[simp] theorem ui_wireRev : (updateInterest cfg s).1.wireRev = s.wireRev := by
+  unfold updateInterest; split <;> rfl
+@[simp] theorem ui_acceptedRev : (updateInterest cfg s).1.acceptedRev = s.acceptedRev := by
+  unfold updateInterest; split <;> rfl
+@[simp] theorem ui_closed : (updateInterest cfg s).1.closed = s.closed := by
+  unfold updateInterest; split <;> rfl
+@[simp] theorem ui_tls : (updateInterest cfg s).1.tls = s.tls := by
+  unfold updateInterest; split <;> rfl
+@[simp] theorem ui_deliveredRev : (updateInterest cfg s).1.deliveredRev = s.deliveredRev := by
+  unfold updateInterest; split <;> rfl
+@[simp] theorem ui_receivedRev : (updateInterest cfg s).1.receivedRev = s.receivedRev := by
+  unfold updateInterest; split <;> rfl
+@[simp] theorem ui_connectPending : (updateInterest cfg s).1.connectPending = s.connectPending := by
+  unfold updateInterest; split <;> rfl
+@[simp] theorem ui_wire : (updateInterest cfg s).1.wire = s.wire := by simp [St.wire]
+@[simp] theorem ui_accepted : (updateInterest cfg s).1.accepted = s.accepted := by simp [St.accepted]
 
-theorem ui_armed : Armed (updateInterest cfg s).1 := by
+theorem ui_armed (hmod : cfg.modSkipsUnchanged = false) : Armed (updateInterest cfg s).1 := by
   intro _ hq
-  have hq' : s.wq ≠ [] := hq
+  have hq' : s.wq ≠ [] := by simpa using hq
   have : s.wq.isEmpty = false := by
     cases h : s.wq with
     | nil => exact absurd h hq'
     | cons _ _ => rfl
-  simp [updateInterest, this]
+  simp [updateInterest, needWrite, this, hmod]
 
-theorem ui_outs : ∃ b, (updateInterest cfg s).2 = [.interest b cfg.edge] := ⟨_, rfl⟩
 
-theorem ui_conserved (h : Conserved s) : Conserved (updateInterest cfg s).1 := h
-theorem ui_inv (h : Inv s) : Inv (updateInterest cfg s).1 := h
-theorem ui_good (h : Inv s) : Good (updateInterest cfg s).1 := ⟨h, ui_armed cfg s⟩
+theorem ui_inv (h : Inv s) : Inv (updateInterest cfg s).1 := by
+  unfold Inv Conserved at *; simpa using h
+theorem ui_good (h : Inv s) : Good cfg (updateInterest cfg s).1 := ⟨ui_inv cfg s h, ui_armed cfg s⟩
 
 @[simp] theorem cn_wireRev (w : Why) : (closeNow s w).1.wireRev = s.wireRev := by
   unfold closeNow; split <;> rfl
@@ -74,8 +83,8 @@ theorem ui_good (h : Inv s) : Good (updateInterest cfg s).1 := ⟨h, ui_armed cf
 @[simp] theorem cn_accepted (w : Why) : (closeNow s w).1.accepted = s.accepted := by
   simp [St.accepted]
 
-theorem cn_good (w : Why) (h : s.wire <+: s.accepted.flatten) : Good (closeNow s w).1 := by
-  refine ⟨⟨fun hc => ?_, ?_⟩, fun hc => ?_⟩
+theorem cn_good (w : Why) (h : s.wire <+: s.accepted.flatten) : Good cfg (closeNow s w).1 := by
+  refine ⟨⟨fun hc => ?_, ?_⟩, fun _ hc => ?_⟩
   · simp at hc
   · simpa using h
   · simp at hc
@@ -93,13 +102,13 @@ theorem prefix_of_eq {a b c : Bytes} (h : a ++ b = c) : a <+: c := ⟨b, h⟩
 
 /-- the queueing tail of `doSend`, close-on-backpressure policy: the payload is appended whole at the back, or the session closes -/
 theorem enqueueTail_good (cfg : Cfg) (s : St) (p : Bytes) (hcob : cfg.closeOnBackpressure = true)
-    (h : s.wire ++ (s.wq.flatten ++ p) = s.accepted.flatten) : Good (enqueueTail cfg s p).1 := by
+    (h : s.wire ++ (s.wq.flatten ++ p) = s.accepted.flatten) : Good cfg (enqueueTail cfg s p).1 := by
   unfold enqueueTail
   have hcons : Conserved { s with wq := s.wq ++ [p] } := by
     simpa [Conserved, St.wire, St.accepted, List.flatten_append] using h
   simp only [hcob, if_true]
   split
-  · exact cn_good _ _ (prefix_of_eq hcons)
+  · exact cn_good cfg _ _ (prefix_of_eq hcons)
   · exact ui_good cfg _ (inv_of_conserved (by simpa [Conserved, St.wire, St.accepted] using hcons))
 
 theorem noteWrite_flat (s : St) (t : Bytes) :
@@ -117,7 +126,7 @@ theorem noteWrite_flat (s : St) (t : Bytes) :
 
 /-- `doSend` keeps the invariants (close-on-backpressure policy) -/
 theorem doSend_good (cfg : Cfg) (s : St) (p : Bytes) (a : WAns) (hcob : cfg.closeOnBackpressure = true)
-    (hg : Good s) : Good (doSend cfg s p a).1 := by
+    (hg : Good cfg s) : Good cfg (doSend cfg s p a).1 := by
   obtain ⟨⟨hcons, hpre⟩, harm⟩ := hg
   unfold doSend
   simp only
@@ -125,7 +134,7 @@ theorem doSend_good (cfg : Cfg) (s : St) (p : Bytes) (a : WAns) (hcob : cfg.clos
   · -- closed: the command is dropped
     rename_i hc
     have hc' : s.closed = true := by simpa using hc
-    refine ⟨⟨fun h => ?_, ?_⟩, fun h => ?_⟩
+    refine ⟨⟨fun h => ?_, ?_⟩, fun _ h => ?_⟩
     · simp [hc'] at h
     · obtain ⟨t, ht⟩ := hpre
       refine ⟨t ++ p, ?_⟩
@@ -156,7 +165,7 @@ theorem doSend_good (cfg : Cfg) (s : St) (p : Bytes) (a : WAns) (hcob : cfg.clos
           · -- whole payload written
             rename_i hn
             have hn' : p.take n = p := List.take_of_length_le (by omega)
-            refine ⟨inv_of_conserved ?_, fun _ hne => ?_⟩
+            refine ⟨inv_of_conserved ?_, fun _ _ hne => ?_⟩
             · simp only [Conserved, St.wire, St.accepted]
               simp [noteWrite_flat, hw, hq, hn']
             · simp [hq] at hne
@@ -165,7 +174,7 @@ theorem doSend_good (cfg : Cfg) (s : St) (p : Bytes) (a : WAns) (hcob : cfg.clos
           simp only [St.wire, St.accepted]
           simp [noteWrite_flat, hw, hq]
         · -- failure: close
-          refine cn_good _ _ ?_
+          refine cn_good cfg _ _ ?_
           simp only [St.wire, St.accepted]
           simp [noteWrite_flat, hw]
       · -- queue not empty: append at the back
@@ -214,8 +223,8 @@ theorem writeLoop_drained (ssl : Bool) : ∀ (q : List Bytes) (as : List WAns),
     · simp
     · simp
 
-theorem writePending_good (cfg : Cfg) (s : St) (ws : List WAns) (hc : s.closed = false) (hg : Good s) :
-    Good (writePending cfg s ws).1 := by
+theorem writePending_good (cfg : Cfg) (s : St) (ws : List WAns) (hc : s.closed = false) (hg : Good cfg s) :
+    Good cfg (writePending cfg s ws).1 := by
   obtain ⟨⟨hcons, _⟩, _⟩ := hg
   have hcs : s.wireRev.reverse.flatten ++ s.wq.flatten = s.acceptedRev.reverse.flatten := hcons hc
   have hl := writeLoop_conserves (s.tls == .open) s.wq ws
@@ -228,7 +237,7 @@ theorem writePending_good (cfg : Cfg) (s : St) (ws : List WAns) (hc : s.closed =
     simp only [flat_rev_append]
     rw [List.append_assoc, hl, hcs]
   split
-  · exact cn_good _ _ (by simp only [St.wire, St.accepted]; exact ⟨_, key⟩)
+  · exact cn_good cfg _ _ (by simp only [St.wire, St.accepted]; exact ⟨_, key⟩)
   · exact ui_good cfg _ (inv_of_conserved (by simp only [Conserved, St.wire, St.accepted]; exact key))
   · exact ui_good cfg _ (inv_of_conserved (by simp only [Conserved, St.wire, St.accepted]; exact key))
   · exact ui_good cfg _ (inv_of_conserved (by simp only [Conserved, St.wire, St.accepted]; exact key))
@@ -241,15 +250,15 @@ theorem inv_congr {s s' : St} (h1 : s'.wq = s.wq) (h2 : s'.wireRev = s.wireRev) 
   unfold Inv Conserved St.wire St.accepted at *
   rw [h1, h2, h3, h4]; exact h
 
-theorem good_congr {s s' : St} (h1 : s'.wq = s.wq) (h2 : s'.wireRev = s.wireRev) (h3 : s'.acceptedRev = s.acceptedRev)
+theorem good_congr {cfg : Cfg} {s s' : St} (h1 : s'.wq = s.wq) (h2 : s'.wireRev = s.wireRev) (h3 : s'.acceptedRev = s.acceptedRev)
     (h4 : s'.closed = s.closed) (h5 : s'.interestOut = s.interestOut) (h6 : s'.rearmed = s.rearmed)
-    (h : Good s) : Good s' := by
-  refine ⟨inv_congr h1 h2 h3 h4 h.1, ?_⟩
-  have := h.2
+    (h : Good cfg s) : Good cfg s' := by
+  refine ⟨inv_congr h1 h2 h3 h4 h.1, fun hm => ?_⟩
+  have := h.2 hm
   unfold Armed at *
   rw [h1, h4, h5, h6]; exact this
 
-theorem readAvail_good (cfg : Cfg) : ∀ (rs : List RAns) (s : St), Good s → Good (readAvail cfg s rs).1.1
+theorem readAvail_good (cfg : Cfg) : ∀ (rs : List RAns) (s : St), Good cfg s → Good cfg (readAvail cfg s rs).1.1
   | [], s, h => by simpa [readAvail] using h
   | a :: rest, s, h => by
     unfold readAvail
@@ -258,26 +267,26 @@ theorem readAvail_good (cfg : Cfg) : ∀ (rs : List RAns) (s : St), Good s → G
     · exact readAvail_good cfg rest _ (good_congr rfl rfl rfl rfl rfl rfl h)
     · exact h
     · exact ui_good cfg _ (inv_congr rfl rfl rfl rfl h.1)
-    · exact cn_good _ _ h.1.2
-    · exact cn_good _ _ h.1.2
+    · exact cn_good cfg _ _ h.1.2
+    · exact cn_good cfg _ _ h.1.2
 
-theorem driveHandshake_good (cfg : Cfg) (s : St) (h : HAns) (rs : List RAns) (hg : Good s) :
-    Good (driveHandshake cfg s h rs).1.1.1 := by
+theorem driveHandshake_good (cfg : Cfg) (s : St) (h : HAns) (rs : List RAns) (hg : Good cfg s) :
+    Good cfg (driveHandshake cfg s h rs).1.1.1 := by
   unfold driveHandshake
   split
   · exact readAvail_good cfg rs _ (ui_good cfg _ (inv_congr rfl rfl rfl rfl hg.1))
   · exact ui_good cfg _ (inv_congr rfl rfl rfl rfl hg.1)
   · exact ui_good cfg _ (inv_congr rfl rfl rfl rfl hg.1)
-  · exact cn_good _ _ hg.1.2
+  · exact cn_good cfg _ _ hg.1.2
 
-theorem onSessionIo_good (cfg : Cfg) (s : St) (ev : Ev) (rs : List RAns) (ws : List WAns) (hg : Good s) :
-    Good (onSessionIo cfg s ev rs ws).1 := by
+theorem onSessionIo_good (cfg : Cfg) (s : St) (ev : Ev) (rs : List RAns) (ws : List WAns) (hg : Good cfg s) :
+    Good cfg (onSessionIo cfg s ev rs ws).1 := by
   unfold onSessionIo
   split
   · exact hg
   · split
-    · exact cn_good _ _ hg.1.2
-    · have h1 : Good (if ev.inn = true then (readAvail cfg s rs).1 else (s, [])).1 := by
+    · exact cn_good cfg _ _ hg.1.2
+    · have h1 : Good cfg (if ev.inn = true then (readAvail cfg s rs).1 else (s, [])).1 := by
         split
         · exact readAvail_good cfg rs s hg
         · exact hg
@@ -290,7 +299,7 @@ theorem onSessionIo_good (cfg : Cfg) (s : St) (ev : Ev) (rs : List RAns) (ws : L
         · exact writePending_good cfg _ ws (by simpa using hc) h1
         · exact h1
 
-theorem connectCheck_good (s : St) (c : CAns) (hg : Good s) : Good (connectCheck s c).1 := by
+theorem connectCheck_good (s : St) (c : CAns) (hg : Good cfg s) : Good cfg (connectCheck s c).1 := by
   unfold connectCheck
   split
   · exact hg
@@ -299,15 +308,15 @@ theorem connectCheck_good (s : St) (c : CAns) (hg : Good s) : Good (connectCheck
     · split
       · exact good_congr rfl rfl rfl rfl rfl rfl hg
       · exact hg
-      · exact cn_good _ _ hg.1.2
+      · exact cn_good cfg _ _ hg.1.2
 
 theorem onSession_good (cfg : Cfg) (s : St) (ev : Ev) (soOk : Bool) (c : CAns) (h : HAns)
-    (rs : List RAns) (ws : List WAns) (hg : Good s) : Good (onSession cfg s ev soOk c h rs ws).1 := by
+    (rs : List RAns) (ws : List WAns) (hg : Good cfg s) : Good cfg (onSession cfg s ev soOk c h rs ws).1 := by
   unfold onSession
   split
   · exact hg
   · split
-    · exact cn_good _ _ hg.1.2
+    · exact cn_good cfg _ _ hg.1.2
     · simp only
       split
       · split
@@ -317,26 +326,30 @@ theorem onSession_good (cfg : Cfg) (s : St) (ev : Ev) (soOk : Bool) (c : CAns) (
         · split
           · exact onSessionIo_good cfg _ ev rs ws (ui_good cfg _ (inv_congr rfl rfl rfl rfl hg.1))
           · exact onSessionIo_good cfg _ ev rs ws hg
-          · exact cn_good _ _ hg.1.2
+          · exact cn_good cfg _ _ hg.1.2
         · exact onSessionIo_good cfg _ ev rs ws hg
 
 /-- every step keeps T1's and T3's invariants (close-on-backpressure policy) -/
-theorem step_good (cfg : Cfg) (hcob : cfg.closeOnBackpressure = true) (s : St) (i : In) (hg : Good s) :
-    Good (step cfg s i).1 := by
+theorem step_good (cfg : Cfg) (hcob : cfg.closeOnBackpressure = true) (s : St) (i : In) (hg : Good cfg s) :
+    Good cfg (step cfg s i).1 := by
   cases i with
-  | cmdSend p a => exact doSend_good cfg s p a hcob hg
-  | cmdClose w => exact cn_good _ _ hg.1.2
+  | cmdSend p a =>
+    show Good cfg (if p.isEmpty then (s, []) else doSend cfg s p a).1
+    split
+    · exact hg
+    · exact doSend_good cfg s p a hcob hg
+  | cmdClose w => exact cn_good cfg _ _ hg.1.2
   | connectCheck c => exact connectCheck_good s c hg
   | event ev soOk c h rs ws => exact onSession_good cfg s ev soOk c h rs ws hg
 
-theorem run_good (cfg : Cfg) (hcob : cfg.closeOnBackpressure = true) : ∀ (is : List In) (s : St), Good s →
-    Good (run cfg s is).1
+theorem run_good (cfg : Cfg) (hcob : cfg.closeOnBackpressure = true) : ∀ (is : List In) (s : St), Good cfg s →
+    Good cfg (run cfg s is).1
   | [], _, h => h
   | i :: is, s, h => run_good cfg hcob is _ (step_good cfg hcob s i h)
 
-theorem fresh_good (s : St) (h : s.Fresh) : Good s := by
+theorem fresh_good (cfg : Cfg) (s : St) (h : s.Fresh) : Good cfg s := by
   obtain ⟨h1, h2, h3, _, _, _⟩ := h
-  refine ⟨inv_of_conserved ?_, fun _ hne => absurd h1 hne⟩
+  refine ⟨inv_of_conserved ?_, fun _ _ hne => absurd h1 hne⟩
   simp [Conserved, St.wire, St.accepted, h1, h2, h3]
 
 
@@ -356,7 +369,8 @@ theorem noClear_append {a b : List Out} (ha : NoClear a) (hb : NoClear b) : NoCl
 theorem noClear_cons {o : Out} {b : List Out} (ho : o.isClearWrite = false) (hb : NoClear b) : NoClear (o :: b) := by
   unfold NoClear at *; simp [ho, hb]
 
-theorem ui_noClear (cfg : Cfg) (s : St) : NoClear (updateInterest cfg s).2 := rfl
+theorem ui_noClear (cfg : Cfg) (s : St) : NoClear (updateInterest cfg s).2 := by
+  unfold updateInterest; split <;> rfl
 theorem cn_noClear (s : St) (w : Why) : NoClear (closeNow s w).2 := by
   unfold closeNow; split <;> rfl
 
@@ -397,7 +411,7 @@ theorem readAvail_tls (cfg : Cfg) : ∀ (rs : List RAns) (s : St), (readAvail cf
     split
     · exact readAvail_tls cfg rest _
     · rfl
-    · rfl
+    · simp
     · simp
     · simp
 
@@ -409,7 +423,7 @@ theorem readAvail_noClear (cfg : Cfg) : ∀ (rs : List RAns) (s : St), NoClear (
     split
     · exact noClear_cons rfl (noClear_cons rfl (readAvail_noClear cfg rest _))
     · rfl
-    · rfl
+    · exact noClear_cons rfl (ui_noClear _ _)
     · exact noClear_cons rfl (cn_noClear _ _)
     · exact noClear_cons rfl (cn_noClear _ _)
 
@@ -460,10 +474,10 @@ theorem driveHandshake_spec (cfg : Cfg) (s : St) (h : HAns) (rs : List RAns) (hs
   unfold driveHandshake
   split
   · refine ⟨noClear_cons rfl (noClear_cons rfl (noClear_append (ui_noClear _ _) (readAvail_noClear cfg rs _))), ?_, ?_⟩
-    · intro _; rw [readAvail_tls]; rfl
+    · intro _; rw [readAvail_tls]; simp
     · intro hf; simp at hf
-  · exact ⟨noClear_cons rfl (ui_noClear _ _), by intro hf; simp at hf, fun _ => ⟨hs, rfl⟩⟩
-  · exact ⟨noClear_cons rfl (ui_noClear _ _), by intro hf; simp at hf, fun _ => ⟨hs, rfl⟩⟩
+  · exact ⟨noClear_cons rfl (ui_noClear _ _), by intro hf; simp at hf, fun _ => ⟨by simpa using hs, by simp⟩⟩
+  · exact ⟨noClear_cons rfl (ui_noClear _ _), by intro hf; simp at hf, fun _ => ⟨by simpa using hs, by simp⟩⟩
   · exact ⟨noClear_cons rfl (cn_noClear _ _), by intro hf; simp at hf, fun _ => ⟨by simpa using hs, by simp⟩⟩
 
 theorem tls_cases (t : Tls) (h : t ≠ .none) (h' : t ≠ .handshake) : t = .open := by
@@ -491,7 +505,7 @@ theorem doSend_tls (cfg : Cfg) (s : St) (p : Bytes) (a : WAns) : (doSend cfg s p
   split
   · rfl
   · split
-    · rfl
+    · simp
     · split
       · split
         · split <;> simp
@@ -557,7 +571,11 @@ theorem onSession_noClear (cfg : Cfg) (s : St) (ev : Ev) (soOk : Bool) (c : CAns
 theorem step_noClear (cfg : Cfg) (s : St) (i : In) (ht : s.tls ≠ .none) :
     NoClear (step cfg s i).2 ∧ (step cfg s i).1.tls ≠ .none := by
   cases i with
-  | cmdSend p a => exact ⟨doSend_noClear cfg s p a ht, by rw [show (step cfg s (.cmdSend p a)) = doSend cfg s p a from rfl, doSend_tls]; exact ht⟩
+  | cmdSend p a =>
+    show NoClear (if p.isEmpty then (s, []) else doSend cfg s p a).2 ∧ (if p.isEmpty then (s, []) else doSend cfg s p a).1.tls ≠ .none
+    split
+    · exact ⟨rfl, ht⟩
+    · exact ⟨doSend_noClear cfg s p a ht, by rw [doSend_tls]; exact ht⟩
   | cmdClose w => exact ⟨cn_noClear _ _, by show (closeNow s w).1.tls ≠ .none; simpa using ht⟩
   | connectCheck c =>
     show NoClear (connectCheck s c).2 ∧ (connectCheck s c).1.tls ≠ .none
@@ -575,12 +593,14 @@ theorem step_handshake_wire (cfg : Cfg) (s : St) (i : In) (hs : s.tls = .handsha
     (hs' : (step cfg s i).1.tls = .handshake) : (step cfg s i).1.wireRev = s.wireRev := by
   cases i with
   | cmdSend p a =>
-    show (doSend cfg s p a).1.wireRev = s.wireRev
-    unfold doSend
-    simp only
+    show (if p.isEmpty then (s, []) else doSend cfg s p a).1.wireRev = s.wireRev
     split
     · rfl
-    · simp [hs]
+    · unfold doSend
+      simp only
+      split
+      · rfl
+      · simp [hs]
   | cmdClose w => show (closeNow s w).1.wireRev = s.wireRev; simp
   | connectCheck c =>
     show (connectCheck s c).1.wireRev = s.wireRev
@@ -676,10 +696,12 @@ def readCalls : List Out → Nat
   | .read _ _ :: os => readCalls os + 1
   | _ :: os => readCalls os
 
-theorem deliveries_ui (cfg : Cfg) (s : St) : deliveries (updateInterest cfg s).2 = [] := rfl
+theorem deliveries_ui (cfg : Cfg) (s : St) : deliveries (updateInterest cfg s).2 = [] := by
+  unfold updateInterest; split <;> rfl
 theorem deliveries_cn (s : St) (w : Why) : deliveries (closeNow s w).2 = [] := by
   unfold closeNow; split <;> rfl
-theorem readCalls_ui (cfg : Cfg) (s : St) : readCalls (updateInterest cfg s).2 = 0 := rfl
+theorem readCalls_ui (cfg : Cfg) (s : St) : readCalls (updateInterest cfg s).2 = 0 := by
+  unfold updateInterest; split <;> rfl
 theorem readCalls_cn (s : St) (w : Why) : readCalls (closeNow s w).2 = 0 := by
   unfold closeNow; split <;> rfl
 
@@ -761,7 +783,7 @@ theorem loud_pre {s : St} {r : R} (pre : List Out) (h : Loud s r) : Loud s (r.1,
 
 theorem loud_cons {s : St} {r : R} (o : Out) (h : Loud s r) : Loud s (r.1, o :: r.2) := loud_pre [o] h
 
-theorem ui_loud (cfg : Cfg) (s : St) : Loud s (updateInterest cfg s) := Or.inl rfl
+theorem ui_loud (cfg : Cfg) (s : St) : Loud s (updateInterest cfg s) := Or.inl (by simp)
 
 theorem cn_loud (s : St) (w : Why) : Loud s (closeNow s w) := by
   unfold closeNow
@@ -881,7 +903,11 @@ theorem onSession_loud (cfg : Cfg) (s : St) (ev : Ev) (soOk : Bool) (c : CAns) (
 
 theorem step_loud (cfg : Cfg) (s : St) (i : In) : Loud s (step cfg s i) := by
   cases i with
-  | cmdSend p a => exact doSend_loud cfg s p a
+  | cmdSend p a =>
+    show Loud s (if p.isEmpty then (s, []) else doSend cfg s p a)
+    split
+    · exact Or.inl rfl
+    · exact doSend_loud cfg s p a
   | cmdClose w => exact cn_loud s w
   | connectCheck c => exact connectCheck_loud s c
   | event ev soOk c h rs ws => exact onSession_loud cfg s ev soOk c h rs ws
@@ -890,7 +916,13 @@ theorem step_loud (cfg : Cfg) (s : St) (i : In) : Loud s (step cfg s i) := by
 theorem step_closed (cfg : Cfg) (s : St) (i : In) (hc : s.closed = true) :
     (step cfg s i).2 = [] ∧ (step cfg s i).1.closed = true ∧ (step cfg s i).1.wireRev = s.wireRev := by
   cases i with
-  | cmdSend p a => simp [step, doSend, hc]
+  | cmdSend p a =>
+    show (if p.isEmpty then (s, []) else doSend cfg s p a).2 = [] ∧
+      (if p.isEmpty then (s, []) else doSend cfg s p a).1.closed = true ∧
+      (if p.isEmpty then (s, []) else doSend cfg s p a).1.wireRev = s.wireRev
+    split
+    · exact ⟨rfl, hc, rfl⟩
+    · simp [doSend, hc]
   | cmdClose w => simp [step, closeNow, hc]
   | connectCheck c => simp [step, connectCheck, hc]
   | event ev soOk c h rs ws => simp [step, onSession, hc]
@@ -934,9 +966,9 @@ theorem writeLoop_nonEmpty (ssl : Bool) : ∀ (q : List Bytes) (as : List WAns),
   simp only
   split
   · simp
-  · rfl
-  · rfl
-  · rfl
+  · simp
+  · simp
+  · simp
 
 theorem writePending_wq (cfg : Cfg) (s : St) (ws : List WAns) (hc : (writePending cfg s ws).1.closed = false) :
     (writePending cfg s ws).1.wq = (writeLoop (s.tls == .open) s.wq ws).wq := by
@@ -944,9 +976,161 @@ theorem writePending_wq (cfg : Cfg) (s : St) (ws : List WAns) (hc : (writePendin
   simp only at hc ⊢
   split at hc <;> rename_i hst <;> simp only [hst]
   · simp at hc
-  · rfl
-  · rfl
-  · rfl
+  · simp
+  · simp
+  · simp
+
+/-! ## every queued buffer is non-empty in every reachable state (`send` does not enqueue `n == 0`) -/
+
+theorem ne_nil : NonEmptyBufs [] := fun _ h => by simp at h
+theorem ne_append {q : List Bytes} {p : Bytes} (h : NonEmptyBufs q) (hp : p ≠ []) : NonEmptyBufs (q ++ [p]) := by
+  intro d hd
+  simp only [List.mem_append, List.mem_singleton] at hd
+  rcases hd with hd | hd
+  · exact h d hd
+  · rw [hd]; exact hp
+theorem ne_tail {q : List Bytes} (h : NonEmptyBufs q) : NonEmptyBufs q.tail :=
+  fun d hd => h d (List.mem_of_mem_tail hd)
+
+theorem cn_ne (s : St) (w : Why) (h : NonEmptyBufs s.wq) : NonEmptyBufs (closeNow s w).1.wq := by
+  unfold closeNow; split
+  · exact h
+  · exact ne_nil
+
+theorem enqueueTail_ne (cfg : Cfg) (s : St) (p : Bytes) (hp : p ≠ []) (h : NonEmptyBufs s.wq) :
+    NonEmptyBufs (enqueueTail cfg s p).1.wq := by
+  unfold enqueueTail
+  simp only
+  split
+  · split
+    · exact cn_ne _ _ (ne_append h hp)
+    · simpa using ne_tail (ne_append h hp)
+  · simpa using ne_append h hp
+
+theorem doSend_ne (cfg : Cfg) (s : St) (p : Bytes) (a : WAns) (hp : p ≠ []) (h : NonEmptyBufs s.wq) :
+    NonEmptyBufs (doSend cfg s p a).1.wq := by
+  unfold doSend
+  simp only
+  split
+  · exact h
+  · split
+    · simpa using ne_append h hp
+    · split
+      · split
+        · rename_i n _
+          split
+          · rename_i hn
+            simp only [ui_wq]
+            intro d hd
+            simp only [List.mem_singleton] at hd
+            rw [hd]
+            intro he
+            have := congrArg List.length he
+            simp [List.length_drop] at this
+            omega
+          · exact h
+        · exact enqueueTail_ne cfg _ p hp h
+        · exact cn_ne _ _ h
+      · exact enqueueTail_ne cfg _ p hp h
+
+theorem writePending_ne (cfg : Cfg) (s : St) (ws : List WAns) (h : NonEmptyBufs s.wq) :
+    NonEmptyBufs (writePending cfg s ws).1.wq := by
+  have hl := writeLoop_nonEmpty (s.tls == .open) s.wq ws h
+  unfold writePending
+  simp only
+  split
+  · exact cn_ne _ _ hl
+  · simpa using hl
+  · simpa using hl
+  · simpa using hl
+
+theorem readAvail_ne (cfg : Cfg) : ∀ (rs : List RAns) (s : St), NonEmptyBufs s.wq →
+    NonEmptyBufs (readAvail cfg s rs).1.1.wq
+  | [], _, h => h
+  | a :: rest, s, h => by
+    unfold readAvail
+    simp only
+    split
+    · exact readAvail_ne cfg rest _ h
+    · exact h
+    · simpa using h
+    · exact cn_ne _ _ h
+    · exact cn_ne _ _ h
+
+theorem driveHandshake_ne (cfg : Cfg) (s : St) (h : HAns) (rs : List RAns) (hn : NonEmptyBufs s.wq) :
+    NonEmptyBufs (driveHandshake cfg s h rs).1.1.1.wq := by
+  unfold driveHandshake
+  split
+  · exact readAvail_ne cfg rs _ (by simpa using hn)
+  · simpa using hn
+  · simpa using hn
+  · exact cn_ne _ _ hn
+
+theorem onSessionIo_ne (cfg : Cfg) (s : St) (ev : Ev) (rs : List RAns) (ws : List WAns) (hn : NonEmptyBufs s.wq) :
+    NonEmptyBufs (onSessionIo cfg s ev rs ws).1.wq := by
+  unfold onSessionIo
+  split
+  · exact hn
+  · split
+    · exact cn_ne _ _ hn
+    · have h1 : NonEmptyBufs (if ev.inn = true then (readAvail cfg s rs).1 else (s, [])).1.wq := by
+        split
+        · exact readAvail_ne cfg rs s hn
+        · exact hn
+      simp only
+      generalize (if ev.inn = true then (readAvail cfg s rs).1 else (s, [])) = r1 at h1 ⊢
+      split
+      · exact h1
+      · split
+        · exact writePending_ne cfg _ ws h1
+        · exact h1
+
+theorem connectCheck_ne (s : St) (c : CAns) (hn : NonEmptyBufs s.wq) : NonEmptyBufs (connectCheck s c).1.wq := by
+  unfold connectCheck
+  split
+  · exact hn
+  · split
+    · exact hn
+    · split
+      · exact hn
+      · exact hn
+      · exact cn_ne _ _ hn
+
+theorem onSession_ne (cfg : Cfg) (s : St) (ev : Ev) (soOk : Bool) (c : CAns) (h : HAns)
+    (rs : List RAns) (ws : List WAns) (hn : NonEmptyBufs s.wq) :
+    NonEmptyBufs (onSession cfg s ev soOk c h rs ws).1.wq := by
+  unfold onSession
+  split
+  · exact hn
+  · split
+    · exact cn_ne _ _ hn
+    · simp only
+      split
+      · split
+        · exact onSessionIo_ne cfg _ ev _ ws (driveHandshake_ne cfg s h rs hn)
+        · exact driveHandshake_ne cfg s h rs hn
+      · split
+        · split
+          · exact onSessionIo_ne cfg _ ev rs ws (by simpa using hn)
+          · exact onSessionIo_ne cfg _ ev rs ws hn
+          · exact cn_ne _ _ hn
+        · exact onSessionIo_ne cfg _ ev rs ws hn
+
+theorem step_ne (cfg : Cfg) (s : St) (i : In) (hn : NonEmptyBufs s.wq) : NonEmptyBufs (step cfg s i).1.wq := by
+  cases i with
+  | cmdSend p a =>
+    show NonEmptyBufs (if p.isEmpty then (s, []) else doSend cfg s p a).1.wq
+    split
+    · exact hn
+    · rename_i hp
+      exact doSend_ne cfg s p a (by intro he; simp [he] at hp) hn
+  | cmdClose w => exact cn_ne s w hn
+  | connectCheck c => exact connectCheck_ne s c hn
+  | event ev soOk c h rs ws => exact onSession_ne cfg s ev soOk c h rs ws hn
+
+theorem run_ne (cfg : Cfg) : ∀ (is : List In) (s : St), NonEmptyBufs s.wq → NonEmptyBufs (run cfg s is).1.wq
+  | [], _, h => h
+  | i :: is, s, h => run_ne cfg is _ (step_ne cfg s i h)
 
 /-! ## T5: the command queue under `_cmdMutex` -/
 namespace Enq
@@ -979,9 +1163,10 @@ structure EInv (q : Q) : Prop where
   pos : ∀ (t : Tid) (th : Thr) (p : Nat), q.thr[t]? = some th → th.pc = .readEnd p → p = q.cmds.length
   fifo : ∀ (t : Tid) (th : Thr), q.thr[t]? = some th →
     seqOf t (q.taken ++ q.cmds) = List.range (th.next + (if th.pc = .stored then 1 else 0))
+  dom : ∀ c ∈ q.taken ++ q.cmds, c.1 < q.thr.length
 
 theorem init_inv (n : Nat) : EInv (init n) := by
-  refine ⟨?_, ?_, ?_⟩
+  refine ⟨?_, ?_, ?_, ?_⟩
   · intro t th h hp
     simp only [init, List.getElem?_replicate] at h
     split at h
@@ -997,6 +1182,7 @@ theorem init_inv (n : Nat) : EInv (init n) := by
     split at h
     · cases h; simp [init, seqOf]
     · cases h
+  · intro c hc; simp [init] at hc
 
 theorem storeAt_end (l : List Cmd) (c : Cmd) : storeAt l l.length c = l ++ [c] := by
   simp [storeAt]
@@ -1009,7 +1195,7 @@ theorem step_inv (q : Q) (a : Actor) (hi : EInv q) : EInv (step true q a) := by
     split
     · rename_i hown
       have hnone : q.owner = none := by simpa using hown
-      refine ⟨?_, ?_, ?_⟩
+      refine ⟨?_, ?_, ?_, ?_⟩
       · intro t th h hp; exact hi.own t th h hp
       · intro t th p h hp
         have := hi.own t th h (by rw [hp]; simp)
@@ -1017,6 +1203,8 @@ theorem step_inv (q : Q) (a : Actor) (hi : EInv q) : EInv (step true q a) := by
       · intro t th h
         have := hi.fifo t th h
         simpa using this
+      · intro c hc
+        exact hi.dom c (by simpa using hc)
     · exact hi
   | sender t =>
     unfold step
@@ -1032,7 +1220,7 @@ theorem step_inv (q : Q) (a : Actor) (hi : EInv q) : EInv (step true q a) := by
         · rename_i hown
           have hnone : q.owner = none := by simpa using hown
           have hthr : ({ q with owner := some t } : Q).thr[t]? = some th := hth
-          refine ⟨?_, ?_, ?_⟩
+          refine ⟨?_, ?_, ?_, ?_⟩
           · intro t' th' h hp
             rw [setThr_get _ t th _ t' hthr] at h
             split at h
@@ -1052,10 +1240,13 @@ theorem step_inv (q : Q) (a : Actor) (hi : EInv q) : EInv (step true q a) := by
               have := hi.fifo t' th hth
               simpa [hpc] using this
             · exact hi.fifo t' th' h
+          · intro c hc
+            have := hi.dom c hc
+            simpa [setThr] using this
         · exact hi
       | locked =>
         have hown : q.owner = some t := hi.own t th hth (by rw [hpc]; simp)
-        refine ⟨?_, ?_, ?_⟩
+        refine ⟨?_, ?_, ?_, ?_⟩
         · intro t' th' h hp
           rw [setThr_get _ t th _ t' hth] at h
           split at h
@@ -1074,12 +1265,15 @@ theorem step_inv (q : Q) (a : Actor) (hi : EInv q) : EInv (step true q a) := by
             have := hi.fifo t' th hth
             simpa [hpc] using this
           · exact hi.fifo t' th' h
+        · intro c hc
+          have := hi.dom c hc
+          simpa [setThr] using this
       | readEnd p =>
         have hown : q.owner = some t := hi.own t th hth (by rw [hpc]; simp)
         have hp : p = q.cmds.length := hi.pos t th p hth hpc
         subst hp
         have hthr : ({ q with cmds := storeAt q.cmds q.cmds.length (t, th.next) } : Q).thr[t]? = some th := hth
-        refine ⟨?_, ?_, ?_⟩
+        refine ⟨?_, ?_, ?_, ?_⟩
         · intro t' th' h hp'
           rw [setThr_get _ t th _ t' hthr] at h
           split at h
@@ -1105,11 +1299,23 @@ theorem step_inv (q : Q) (a : Actor) (hi : EInv q) : EInv (step true q a) := by
           · rename_i e
             rw [seqOf_single_ne t' t _ (fun x => e x.symm), List.append_nil]
             exact hi.fifo t' th' h
+        · intro c hc
+          have hlt : t < q.thr.length := (List.getElem?_eq_some_iff.mp hth).1
+          have hc' : c ∈ (q.taken ++ q.cmds) ++ [(t, th.next)] := by
+            have : c ∈ q.taken ++ storeAt q.cmds q.cmds.length (t, th.next) := hc
+            rw [storeAt_end, ← List.append_assoc] at this
+            exact this
+          simp only [List.mem_append, List.mem_singleton] at hc'
+          show c.1 < (q.thr.set t _).length
+          rw [List.length_set]
+          rcases hc' with hc' | hc'
+          · exact hi.dom c (by simpa using hc')
+          · rw [hc']; exact hlt
       | stored =>
         have hown : q.owner = some t := hi.own t th hth (by rw [hpc]; simp)
         simp only [if_true]
         have hthr : ({ q with owner := none } : Q).thr[t]? = some th := hth
-        refine ⟨?_, ?_, ?_⟩
+        refine ⟨?_, ?_, ?_, ?_⟩
         · intro t' th' h hp'
           rw [setThr_get _ t th _ t' hthr] at h
           split at h
@@ -1131,6 +1337,9 @@ theorem step_inv (q : Q) (a : Actor) (hi : EInv q) : EInv (step true q a) := by
             have := hi.fifo t' th hth
             simpa [hpc] using this
           · exact hi.fifo t' th' h
+        · intro c hc
+          have := hi.dom c hc
+          simpa [setThr] using this
 
 theorem run_inv : ∀ (as : List Actor) (q : Q), EInv q → EInv (run true q as)
   | [], _, h => h
